@@ -4,6 +4,7 @@ use serde_json::Value;
 
 pub mod c04;
 pub mod c05;
+pub mod c06a;
 pub mod c07;
 pub mod c09a;
 pub mod c15;
@@ -26,7 +27,14 @@ pub fn run(ctx: &Ctx) -> Option<Report> {
         "C15" => Some(c15::run(ctx)),
         "C18" => Some(c18::run(ctx)),
         "C20" => Some(c20::run(ctx)),
-        "C06" => Some(stateful::run_target(ctx, Target::C06)),
+        "C06" => {
+            let mut r = stateful::run_target(ctx, Target::C06);
+            let pure = c06a::run(ctx);
+            let floor = r.nontrivial_floor;
+            r.merge(pure);
+            r.nontrivial_floor = floor;
+            Some(r)
+        }
         _ => None,
     }
 }
@@ -45,7 +53,13 @@ pub fn replay(ctx: &Ctx, case: &Value) -> Option<Report> {
         "C15" => Some(c15::replay(ctx, case)),
         "C18" => Some(c18::replay(ctx, case)),
         "C20" => Some(c20::replay(ctx, case)),
-        "C06" => Some(stateful::replay_target(ctx, Target::C06, case)),
+        "C06" => {
+            if case.get("ops").is_some() {
+                Some(stateful::replay_target(ctx, Target::C06, case))
+            } else {
+                Some(c06a::replay(ctx, case))
+            }
+        }
         _ => None,
     }
 }
